@@ -101,12 +101,22 @@ func cmdRun(prop string, args []string) int {
 
 // watchdog aborts the run (inconclusive, with goroutine stacks) if the process grows beyond
 // 28 GiB: a check must never take the machine down.
+var heapDumped bool
+
 func watchdog(ws *Workspace) {
 	debug.SetMemoryLimit(24 << 30)
 	for {
 		time.Sleep(2 * time.Second)
 		var m runtime.MemStats
 		runtime.ReadMemStats(&m)
+		if m.Sys > 6<<30 && !heapDumped && os.Getenv("VERIF_HEAPPROF") != "" {
+			heapDumped = true
+			if f, err := os.Create(os.Getenv("VERIF_HEAPPROF")); err == nil {
+				runtime.GC()
+				pprof.Lookup("heap").WriteTo(f, 0)
+				f.Close()
+			}
+		}
 		if m.Sys > 28<<30 {
 			fmt.Fprintf(os.Stderr, "watchdog: process uses %d MiB; aborting as inconclusive\n", m.Sys>>20)
 			pprof.Lookup("goroutine").WriteTo(os.Stderr, 1)
